@@ -104,6 +104,8 @@ type TConn struct {
 	quiet     bool // do not log write-side events
 	// generic op recording for handshake streams
 	ops []string
+	// reply computed from what has been written so far, the first time a Read finds no chunks
+	dynReply func(wire []byte) []byte
 }
 
 func newTConn(l *evlog) *TConn { return &TConn{log: l, faults: map[int]fault{}} }
@@ -179,6 +181,13 @@ func (c *TConn) SetReadDeadline(t time.Time) error {
 
 func (c *TConn) Read(p []byte) (int, error) {
 	c.reads++
+	if len(c.chunks) == 0 && c.dynReply != nil {
+		f := c.dynReply
+		c.dynReply = nil
+		if b := f(c.wire); len(b) > 0 {
+			c.chunks = [][]byte{b}
+		}
+	}
 	if len(c.chunks) == 0 {
 		if c.term == nil {
 			return 0, io.EOF
